@@ -92,7 +92,7 @@ def n_config(work):
     return {
         "testpkg": "./internal/app/connectconformance",
         "instrument": instrument,
-        "sim": ["simnet", "simsync", "simquic"],
+        "sim": ["simnet", "simsync", "simquic", "simrt"],
         "harness": [("connectconformance_n", "internal/app/connectconformance")],
         "extra_overlay": extra_overlay,
         "modlines": modlines,
